@@ -19,7 +19,12 @@ LEVEL_NOTE = ("Composed methods (GetXattr/ListXattrs, WalkGetAttr below version 
               "for Twalk/Twalkgetattr/Txattrwalk/Tattach the set of backend calls/delegations/lookups in handlers.go is tied (C03_walk_handlers_events) but their control flow "
               "(one walkOne per component, the ENOSYS fallback WalkGetAttr -> Walk+GetAttr, Close of the walked file when GetAttr fails, the branch on len(t.Name), Attach+GetAttr) "
               "is modelled by hand in ClientModel.handler_calls and tied by the differential only (success paths and first-failure paths with a recording backend). "
-              "Result values are compared field by field. "
+              "Result values are compared field by field (backend answers drawn per call; reply-field sources of every handler read by ResultGen: C03_reply_sources / C03_results_identity). "
+              "Sequences through several handles (two handles per directory, renames onto the own name / within / across directories, each followed by SetAttr through the entry's handle) "
+              "run against Client/PathSeq.v, a hand model of the path-tree bookkeeping of Trename/Trenameat (same-entry short-circuit, markChildDeleted, re-registration); its short-circuit "
+              "flag is computed from HandlerGen's guard text (PathSeqTie.rename_guard: path-node comparison, either operand order); C03_rename_keeps_entry_partial is stated for Trenameat only. "
+              "ExtractErrno is proved a function of the depth-first leaf sequence of the error tree (Join / multi-%w / Wrap to any depth: C03_errno_trees); linux/errors.go itself is a hand model "
+              "(Errs.extract) tied by 418+ generated trees and every failing operation, Close failures (joined by fidRef.DecRef) included. "
               "ExtractErrno theorems are stated for chains whose syscall.Errno values are non-zero (errno 0 is not an error value; the model reproduces what the code does with it). "
               "Trusted: Coq kernel + vm_compute, go2coq ClientGen, Go's errors.Is/As semantics as modelled by Errs.find.")
 DESIGN_REF = "6/C03"
@@ -31,7 +36,9 @@ ASSUMPTIONS = [
 TRUSTED_BASE = [
     "Coq 8.16.1 kernel, vm_compute/cbv (finite tables, cases evaluation); no native_compute",
     "axioms: none (Print Assumptions: closed under the global context)",
-    "go2coq ClientGen (table of T-message literals per clientFile method) and ConstGen (thresholds, masks, errno numbers)",
+    "go2coq ClientGen (table of T-message literals per clientFile method), ConstGen (thresholds, masks, errno numbers), HandlerGen (handler traces: C03_handler_table, rename guard) and ResultGen (reply-field sources)",
+    "props/C03.py to_case (observation -> Coq case), harness helpers vhclVerConn (version forced by rewriting the Tversion frame), vh03Flat (reflection flattening of values), vhclClassify (errors.As)",
+    "hand-written Client/PathSeq.v (path-tree bookkeeping of renames), tied by the renseq cases",
     "hand-written Client/ClientModel.v (interpreter, wire, handler_calls, expected) and Client/Errs.v, tied by harness/p9/c03_test.go, harness/linux/c03_errno_test.go, Client/ClientCases.v",
 ]
 
@@ -101,6 +108,17 @@ def to_case(o):
                                                         "; ".join(val(x) for x in (o.get("ret") or [])), "; ".join(val(x) for x in (o.get("ans") or [])))
     if o["kind"] == "errno":
         return "CErr (%s) %d" % (errv(o["answer"]), o["errno"])
+    if o["kind"] == "renseq":
+        def sop(st):
+            if st["op"] == "renameat":
+                return "SRenameAt %d%%nat %s %d%%nat %s" % (st["d"], bstr(st["old"] or []), st["d2"], bstr(st["new"] or []))
+            if st["op"] == "rename":
+                return "SRename %d%%nat %d%%nat %s" % (st["f"], st["d2"], bstr(st["new"] or []))
+            return "SProbe %d%%nat %s [%s]" % (st["f"], coq_string(st["m"]), "; ".join(val(a) for a in st["args"]))
+        def serr(e):
+            return "None" if e["k"] == "nil" else ("(Some %d%%N)" % e["n"] if e["k"] == "errno" else "(Some 4294967295%N)")
+        return "CSeq %d %s %s [%s]" % (o["version"], nl(o["fids"]), bstr(o["fname"] or []),
+                                        "; ".join("(%s, [%s], %s)" % (sop(st), ocalls(st["calls"]), serr(st["err"])) for st in o["steps"]))
     params = "fun k => " + "".join("if (k =? %s)%%string then %s else " % (coq_string(k), val(v)) for k, v in sorted(o["params"].items())) + 'VS "?"'
     pfid = "fun k => (" + "".join("if (k =? %s)%%string then %d else " % (coq_string(k), v) for k, v in sorted(o["pfid"].items())) + "0)%N"
     calls = "; ".join("mkoc %s (%s) [%s]" % (coq_string(c["m"]), target(c["on"]), "; ".join(val(a) for a in (c["args"] or []))) for c in (o["calls"] or []))
@@ -113,7 +131,7 @@ def to_case(o):
         "[" + "; ".join(val(x) for x in (o.get("ret") or [])) + "]", "[" + "; ".join(val(x) for x in (o.get("ans") or [])) + "]")
 
 
-HEADER = ("From Coq Require Import NArith String List.\nFrom P9V Require Import Base.Str gen.ClientGen Client.Chunk Client.ClientModel Client.Errs Client.Composed Client.ClientCases.\n"
+HEADER = ("From Coq Require Import NArith String List.\nFrom P9V Require Import Base.Str gen.ClientGen Client.Chunk Client.ClientModel Client.Errs Client.Composed Client.PathSeq Client.ClientCases.\n"
           "Import ListNotations.\nOpen Scope string_scope.\nOpen Scope N_scope.\n"
           "Definition cases : list c03case := [\n  %s\n].\n"
           "Definition M := Eval vm_compute in mismatches cases.\nPrint M.\n"
@@ -156,9 +174,10 @@ def run(ctx):
     ctx.coverage.update({
         "evaluations": len(obs),
         "distinct_nontrivial": distinct,
-        "rule": "20 methods x versions 0..7 (forced by rewriting the Tversion frame) x {backend succeeds, backend fails with a generated error tree}; arguments: 32-bit "
+        "rule": "21 operation kinds x versions 0..7 (forced by rewriting the Tversion frame) x {backend succeeds, backend fails with a generated error tree}; arguments: 32-bit "
                 "modes/flags/ids from {0,1,0o777,0o7777,0o17777,2^32-1,2^32-2,2^31,random,setuid|setgid|sticky,type bits}, 64-bit offsets/sizes/times, names of 1..24 "
-                "arbitrary bytes; ExtractErrno on 600 (12000 thorough) generated error trees of depth <= 4 + the f2c8a14 corpus; distinct = distinct records",
+                "arbitrary bytes; ExtractErrno on 400 (12000 thorough) generated error trees of depth <= 4 (Wrap, PathError, Join) + the f2c8a14 corpus; "
+                "24 (x3 thorough) rename sequences of 5 renames + 5 probes through two handles per directory at versions 0..7; distinct = distinct records",
         "correspondence": {"cases": len(obs), "mismatches": nm, "by_kind": kinds},
         "samples": [x for x in (next((o for o in obs if o.get("op") == "Mkdir" and o.get("version") == 2), None),
                                 next((o for o in obs if o.get("op") == "Lock"), None),
